@@ -1,9 +1,48 @@
 #!/usr/bin/env python3
-"""Warm the build cache: build each harness once for each generation (no run)."""
-import os, sys
+"""Build the base Go build cache (/verif/.work/gocache-base): the standard library (plain, with the
+race detector, and with the runtime overlay that owns map iteration), the packages of both
+repository modules and of verif/mc. Every check seeds its private cache with hard links to it."""
+import os, shutil, subprocess, sys
 sys.path.insert(0, os.path.dirname(os.path.abspath(__file__)))
-import driver as D, checks
-with D.Scratch() as sc:
-    for name in sorted(dir(checks)):
-        if name.startswith("warm_"):
-            getattr(checks, name)(sc)
+import driver as D
+
+base = D.GOCACHE_BASE
+tmp = base + ".building"
+shutil.rmtree(tmp, ignore_errors=True)
+os.makedirs(tmp)
+env = D.goenv()
+env["GOCACHE"] = tmp
+
+
+def go(args, cwd, extra=None, ok_to_fail=False):
+    e = dict(env)
+    if extra:
+        e.update(extra)
+    p = subprocess.run(["go"] + args, cwd=cwd, env=e, stdout=subprocess.PIPE, stderr=subprocess.STDOUT, text=True)
+    if p.returncode != 0 and not ok_to_fail:
+        print(p.stdout[-2000:])
+        sys.exit(1)
+
+
+for gen in ("v2", "root"):
+    d = D.GENS[gen]["dir"]
+    # (restlidata/generated holds a main package without main(): its link step fails, the rest is cached)
+    go(["build", "./..."], d, ok_to_fail=True)
+    go(["vet", "./restli/...", "./restlicodec/...", "./d2/..."], d, ok_to_fail=True)
+    go(["build", "-race", "./restli/...", "./restlicodec/...", "./d2/...", "./fnv1a/..."], d, extra={"CGO_ENABLED": "1"}, ok_to_fail=True)
+go(["build", "./..."], os.path.join(D.VERIF, "mc"))
+# the generator with the map-iteration overlay (rebuilds the runtime and everything above it)
+with D.Scratch(gocache=False) as sc:
+    import c12
+    ov = c12.maprot_overlay(sc)
+    for gen in ("v2", "root"):
+        mod = D.make_module(sc, gen, "genmain")
+        p = subprocess.run(["go", "build", "-tags", "verifgen", "-overlay", ov, "-o", os.path.join(sc.dir, "g-" + gen), "."], cwd=mod, env=env,
+                           stdout=subprocess.PIPE, stderr=subprocess.STDOUT, text=True)
+        if p.returncode != 0:
+            print(p.stdout[-2000:])
+            sys.exit(1)
+shutil.rmtree(base, ignore_errors=True)
+os.rename(tmp, base)
+n = sum(len(f) for _, _, f in os.walk(base))
+print("base build cache: %d files" % n)
